@@ -1,3 +1,4 @@
 pub mod isa;
 pub mod asm;
 pub mod link;
+pub mod lc3;
